@@ -38,7 +38,7 @@ def main():
     for meta in sorted(glob.glob(f'{ROOT}/seeded/*/meta.json')):
         m = json.load(open(meta))
         d = os.path.dirname(meta)
-        mutants.append(dict(name='seeded/' + os.path.basename(d), patch=f'{d}/patch.diff', breaks=m['breaks'], needs=m.get('needs', '')))
+        mutants.append(dict(name='seeded/' + os.path.basename(d), patch=f'{d}/patch.diff', breaks=m['breaks'], needs=m.get('needs', ''), out_of_domain=m.get('out_of_domain', False)))
     props = [json.loads(l)['id'] for l in open(f'{ROOT}/properties.jsonl')]
     results = []
     missed = 0
@@ -66,8 +66,8 @@ def main():
                     detail[c]['stderr'] = r.stderr.strip()[-300:]
             sh('git checkout -- .', cwd=REPO)
             ok = len(caught) > 0 and all(c in caught for c in m['breaks'][:1])
-            status = 'CAUGHT' if ok else 'MISSED'
-            if not ok:
+            status = 'CAUGHT' if ok else ('OUT-OF-DOMAIN (not caught, as expected)' if m.get('out_of_domain') else 'MISSED')
+            if not ok and not m.get('out_of_domain'):
                 missed += 1
             print(f"{m['name']:<42} {status}  expected={','.join(m['breaks'])} caught_by={','.join(caught) or '-'}  ({time.time()-t0:.0f}s)", flush=True)
             results.append(dict(name=m['name'], status=status, expected=m['breaks'], caught_by=caught, needs=m['needs'], detail=detail))
